@@ -1494,11 +1494,12 @@ from gen_cliargs import g_cliargs
 from gen_ltsutil import g_ltsutil
 from gen_nfas import g_nfas
 from gen_bddwild import g_bddpre
+from gen_bddload import g_bddload
 
 
 GENERATORS = {
     "apisweep": g_apisweep,
-    "ordvec": g_ordvec, "achain": g_achain, "bddsim": g_bddsim, "binrel": g_binrel, "cacheh": g_cacheh, "glue": g_glue, "cliargs": g_cliargs, "ltsutil": g_ltsutil, "nfas": g_nfas, "bddpre": g_bddpre,
+    "ordvec": g_ordvec, "achain": g_achain, "bddsim": g_bddsim, "binrel": g_binrel, "cacheh": g_cacheh, "glue": g_glue, "cliargs": g_cliargs, "ltsutil": g_ltsutil, "nfas": g_nfas, "bddpre": g_bddpre, "bddload": g_bddload,
     **{k: mk_cliop(v) for k, v in CLIOPS.items()},
     "meta": g_meta, "metaf": g_metaf,
     "parse": g_parse,
